@@ -62,6 +62,8 @@ def demo_flags(demo_src):
     for fl in re.findall(r'(?<![\w-])(-m(?:arch|tune|cpu)=[\w.-]+|-m(?:avx2?|avx512\w*|popcnt|pclmul|sse[\d.]+|bmi2?|aes|32))(?![\w-])', cmd):
         if fl not in extra and fl != '-m32':
             extra.append(fl)
+    if '-Wl,-z,now' in cmd:
+        extra.append('-Wl,-z,now')
     if '-fgnuc-version=0' in cmd:
         extra += ['--clang', '-fgnuc-version=0']
     if re.search(r'(?<![\w-])-ffreestanding(?![\w-])', cmd) and '-nostdlib' not in cmd:
